@@ -51,7 +51,7 @@ func init() {
 		},
 		NumCases: func(tier string) int {
 			if tier == "thorough" {
-				return 3000000
+				return 15000000
 			}
 			return 240000
 		},
